@@ -14,8 +14,8 @@ import (
 )
 
 func init() {
-	register(&Rule{ID: "R-map-order", Floor: 45, Run: ruleMapOrder,
-		Doc: "C14 (and C15/C19 where noted): Go randomises map iteration, so every `range` over a map in analyzer, analyzer/ast, compiler, runtime(+value), interpreter(+value), optimizer must have an order-insensitive shape, decided from the loop body with interprocedural write summaries: effects only on storage keyed by the loop key / reachable from the visited element; appends sorted before any other use; diagnostics emitted into the accumulating list (compared as a set) without an order-dependent early exit; searches whose exits are unique (key == invariant) or return one and the same invariant value; commutative integer accumulation / constant flags; ReplaceAll accumulation over a literal map whose entries commute. Any other shape must be listed in maporder_reviewed.json (benign, with reason) or it violates; loops reviewed as order-dependent defects violate. A listed loop is recognised by its key or — when it moved into a helper / another function or its range expression or function was renamed, so that no loop carries the key any more — by package + rename-stable effect signature + type of the ranged map, and keeps its entry and key; a loop whose effects differ from every orphaned entry is reported. Also: no clock/random source, no package-level variable written after init in the pipeline, and the name-mangling counter maps — on whose program-wide uniqueness renameVariables' shared slot table depends while visiting functions in map order — are assigned only at construction and only ever incremented by one function. Breaking any of these makes diagnostics / output / outcome depend on the iteration order of a run."})
+	register(&Rule{ID: "R-map-order", Floor: 52, Run: ruleMapOrder,
+		Doc: "C14 (and C15/C19 where noted): Go randomises map iteration, so every `range` over a map in analyzer, analyzer/ast, compiler, runtime(+value), interpreter(+value), optimizer must have an order-insensitive shape, decided from the loop body with interprocedural write summaries: effects only on storage keyed by the loop key / reachable from the visited element; appends sorted before any other use; diagnostics emitted into the accumulating list (compared as a set) without an order-dependent early exit; searches whose exits are unique (key == invariant) or return one and the same invariant value; commutative integer accumulation / constant flags; ReplaceAll accumulation over a literal map whose entries commute. Any other shape must be listed in maporder_reviewed.json (benign, with reason) or it violates; loops reviewed as order-dependent defects violate. A listed loop is recognised by its key or — when it moved into a helper / another function or its range expression or function was renamed, so that no loop carries the key any more — by package + rename-stable effect signature + type of the ranged map, and keeps its entry and key; a loop whose effects differ from every orphaned entry is reported. Two further conditions are decided per loop on their own, whatever the table says about the loop. (1) Loop-carried places, one obligation `<loop>|carried <place>` per place: a variable / field / package-level variable that an iteration assigns — directly or through a callee (interprocedural field-store summaries with the parameters the stored value derives from) — with a value depending on the visited key/element (not a constant, not a commutative accumulation, not a running extremum, not under a `key == invariant` guard) holds the value of the LAST VISITED element afterwards; it must be overwritten (directly or by a callee that definitely stores it) or end its lifetime on every control-flow path (go/cfg) before it is read by a later iteration, by the code after the loop, by a callee (interprocedural upward-exposed-read summaries), through a result, or — for a place reachable from a pointer parameter / the receiver / a package-level variable — by the callers after the call returns (VTA call graph, followed upwards). (2) A second way out, one obligation `<loop>|panic-vs-exit <call>` per call: a call in the body whose callee (static, or any VTA callee of a dynamic call) may panic depending on a parameter (unchecked single-value type assertion / explicit panic under a test of the parameter's dynamic kind or type, not dominated by such a test; closed over unguarded forwarding) and whose argument derives from the visited element must be dominated inside the body by a guard comparing the dynamic kind of the receiver (or another argument) with that of the argument and leaving the iteration on inequality (if / else / tagless switch / short-circuit operand / predicate helper / through loop-local copies); otherwise, when the loop has another early exit (not merely `element == nil`), one element makes the loop return and another makes it crash: the visiting order decides the outcome. A violated sub-obligation recorded in maporder_reviewed.json keeps its key when its loop moves. A loop reviewed as order-dependent defect keeps violating when its effect signature changes (only a benign review can go stale). Also: no clock/random source, no package-level variable written after init in the pipeline, and the name-mangling counter maps — on whose program-wide uniqueness renameVariables' shared slot table depends while visiting functions in map order — are assigned only at construction and only ever incremented by one function. Breaking any of these makes diagnostics / output / outcome depend on the iteration order of a run."})
 }
 
 type moReviewed struct {
@@ -136,6 +136,7 @@ func ruleMapOrder(c *Ctx) []Obligation {
 	}
 	var pending []moPending
 	loops := moEnumerate(c)
+	scans := map[*moLoop]*moScan{}
 	for _, l := range loops {
 		ob := Obligation{Key: l.keyStr, Pos: c.Pos(l.rs.Pos()), Nontrivial: true}
 		if why := l.unreachable(); why != "" {
@@ -145,6 +146,7 @@ func ruleMapOrder(c *Ctx) []Obligation {
 		}
 		s := &moScan{l: l, a: a, diagT: diagT, c: c}
 		s.stmts(l.rs.Body.List, moCtx{})
+		scans[l] = s
 		v := s.decide(c)
 		if os.Getenv("HMS_MO_DUMP") != "" {
 			// maintainer aid: the data a maporder_reviewed.json entry records
@@ -164,6 +166,14 @@ func ruleMapOrder(c *Ctx) []Obligation {
 		if r, ok := reviewed[l.keyStr]; ok {
 			used[l.keyStr] = true
 			switch {
+			case r.Effects != "" && r.Effects != v.sig && r.Effects != v.sigLegacy && r.Status == "order-dependent-defect":
+				// A loop recorded as a violating defect keeps violating under its key for as
+				// long as it has effects of no order-insensitive shape: a changed signature
+				// (helper extracted / inlined, a local introduced, an effect added) cannot
+				// turn a known defect into something better. Only a `benign` review can be
+				// invalidated by a new effect.
+				ob.Status = Violated
+				ob.Detail = fmt.Sprintf("reviewed ORDER-DEPENDENT DEFECT: %s — analysis: %s [effect signature changed since the review: reviewed {%s}, now {%s}]", r.Reason, why, r.Effects, v.sig)
 			case r.Effects != "" && r.Effects != v.sig && r.Effects != v.sigLegacy:
 				ob.Status = Undecided
 				ob.Detail = fmt.Sprintf("the review recorded in maporder_reviewed.json is stale: reviewed effects {%s}, the loop now has {%s}. %s", r.Effects, v.sig, why)
@@ -196,7 +206,7 @@ func ruleMapOrder(c *Ctx) []Obligation {
 	// function moves away, the second one takes over its key text)
 	var orphans []string
 	for _, k := range moReviewedOrder {
-		if !used[k] {
+		if !used[k] && !r4bIsSubKey(k) {
 			orphans = append(orphans, k)
 		}
 	}
@@ -320,6 +330,9 @@ func ruleMapOrder(c *Ctx) []Obligation {
 			obs = append(obs, Obligation{Key: "reviewed-table|" + k, Status: Info, Detail: "entry of maporder_reviewed.json matches no loop of the current tree (loop removed or renamed)"})
 		}
 	}
+	subs := r4bCarriedObligations(c, a, loops, diagT)
+	subs = append(subs, r4bPanicExitObligations(c, a, loops, scans)...)
+	obs = append(obs, r4bApplyReviews(reviewed, moReviewedOrder, subs)...)
 	obs = append(obs, determStateObligations(c, a)...)
 	// keys stay unique whatever the matching above produced
 	seenKey := map[string]int{}
